@@ -12,7 +12,7 @@ HARNESS = ["network/transport/v2/zz_verif_c07_test.go", "network/transport/v2/zz
 REQUIRED = ["safety_any_schedule", "unsolicited_responses_change_no_dag", "chunks_lossless", "stable_when_equal",
             "pull_round_result", "stuck_both_ways_same", "round_progress", "converges", "stable_after_convergence", "rounds_are_schedules", "range_reply_sorted_prefixclosed",
             "fact_constants", "fact_blockable", "fact_transaction_set_shape", "fact_transaction_list_shape", "fact_gossip_condition",
-            "fact_handled_envelopes", "fact_liveness_constants"]
+            "fact_handled_envelopes", "fact_liveness_constants", "fact_dispatch_and_wiring"]
 
 
 def scenario_slices(ops):
@@ -138,6 +138,42 @@ def run(ctx):
                           "list-order.jsonl", replay_text(ops, header, sl[0][0], i) if sl else ops[i])
             break
     ctx.oblige("oracle:never-shrink,never-invalid,union-at-quiescence,quiet-when-equal(impl)", n_bad == 0, f"{n_bad} scenario problems")
+    # ---- edge counters: the code edges the seeds hit must OCCUR in the run (a generator that stops reaching them is a hole)
+    edges = Counter()
+    ps = int(facts.get("pageSize", 512)) if facts else 512
+    for i, l in enumerate(impl):
+        if l.startswith("ret=prev-missing") or "ret=prev-missing " in l:
+            edges["add-prev-missing"] += 1
+        for m in re.finditer(r"state\(c\d+\.\d+,x=[0-9a-f]+,lc=(\d+)\)", l):
+            if (int(m.group(1)) + 1) % ps == 0:
+                edges["previous-page-state-fallback"] += 1
+        for m in re.finditer(r"rq\(c\d+\.\d+,(\d+),(\d+)\)", l):
+            a, b = int(m.group(1)), int(m.group(2))
+            edges["range-first-page" if a == 0 else ("range-next-one-page" if b - a == ps else "range-next-two-pages")] += 1
+        if re.search(r"tl\(c\d+\.\d+,\d+/([2-9]|\d\d+),", l):
+            edges["chunked-reply"] += 1
+        if "refs=#100:" in l and "gossip(" in l:
+            edges["gossip-queue-full(100 refs)"] += 1
+        for k in ("err:unknown-conv", "err:not-requested", "err:out-of-range", "err:wrong-type", "err:lcreq", "err:add-sig", "err:add-clock",
+                  "err:add-root", "err:add-payload-hash", "err:parse", "err:iblt", "err:invalid-range", "err:no-payload"):
+            if "ret=" + k in l:
+                edges["rejected:" + k] += 1
+        if l.startswith("conn connected=false"):
+            edges["connection-down-or-disconnected"] += 1
+        if l.startswith("sent=[] ") and " q=" in l and not l.endswith(" q=0"):
+            edges["tick-without-connection-keeps-queue"] += 1
+        if " q=" in l and l.startswith("sent=[m") and "refs=#0:" not in l:
+            edges["gossip-with-refs"] += 1
+    for i, l in enumerate(ops):
+        if '"op":"deliver"' in l[:40] and '"dec":"fail"' in l:
+            edges["iblt-decode-failed"] += 1
+        if '"op":"deliver"' in l[:40] and '"dec":"ok"' in l and '"missing":[]' not in l:
+            edges["iblt-decode-ok-with-missing"] += 1
+    need = ["add-prev-missing", "previous-page-state-fallback", "range-first-page", "range-next-two-pages", "chunked-reply", "gossip-queue-full(100 refs)",
+            "iblt-decode-failed", "iblt-decode-ok-with-missing", "rejected:err:unknown-conv", "connection-down-or-disconnected", "gossip-with-refs", "tick-without-connection-keeps-queue"]
+    missing_edges = [e for e in need if edges[e] == 0] if not ctx.replay else []
+    ctx.oblige("generator-reaches-the-protocol-edges(quick tier)", not missing_edges, f"edges not reached: {missing_edges}; reached: {dict(edges)}")
+
     # the decode contract, measured (exactness on success must be total; success on empty difference must be total)
     dc_bad = [k for k, v in dc.items() if v[2] != v[1]] + (["0"] if "0" in dc and dc["0"][1] != dc["0"][0] else [])
     ctx.oblige("decode-contract-measured(impl)", not dc_bad, f"buckets violating DC: {dc_bad} histogram {dc}")
@@ -171,6 +207,7 @@ def run(ctx):
                        "sides; distinct_nontrivial = scenarios with a difference or deliveries")
     ctx.cov["input_distribution"] = {"scenarios": len(verdicts), "templates": dict(kinds), "features": dict(feats), "step_kinds": dict(opk),
                                      "rounds_to_converge": dict(Counter(v["rounds"] for v in verdicts)),
+                                     "protocol_edges_reached": dict(edges),
                                      "decode_contract_histogram(bucket:[attempts,success,exact])": dc,
                                      "universe_transactions": sum(1 for l in ops if '"op":"tx"' in l[:200])}
     ctx.cov["samples"] = [steps[1][:300] if len(steps) > 1 else "", impl[len(ops) - len(steps) + 1][:300] if impl else ""]
